@@ -44,6 +44,7 @@ var Prop = &engine.Prop{
 		{Name: "rds", Quick: 8000, Thorough: 400000, Fn: rdsCase},
 		{Name: "oneshot", Quick: 600, Thorough: 24000, Repeat: 20, Fn: oneshotCase},
 		{Name: "linz", Quick: 1600, Thorough: 64000, Repeat: 20, Fn: linzCase},
+		{Name: "evict-race", Quick: 40, Thorough: 1600, Fn: evictRaceCase},
 	},
 	Floors: map[string]int64{
 		"hit":                       5000,
